@@ -7,6 +7,7 @@ import Driver.PersistStream
 import Driver.HwmonStream
 import Driver.ExecStream
 import Driver.ConfigStream
+import Driver.StartupStream
 import Fan2go.Model.ControlLoop
 import Fan2go.Model.Curves
 import Fan2go.Model.Fan
@@ -25,6 +26,7 @@ structure St where
   hw : HwmonDrvSt := {}
   ex : ExecDrvSt := {}
   cfgSt : ConfigDrvSt := {}
+  su : StartupDrvSt := {}
   snKind : SensorKind := .file
   snAvg : F64 := F64.zero
   snWin : Int := 10
@@ -340,6 +342,7 @@ def step (st : St) (line : String) : St × String :=
     | "fan" => opFan st op a
     | "w" => opWorld st op a
     | "sn" => opSensor st op a
+    | "su" => let (s, o) := startupStep st.su op a; ({ st with su := s }, o)
     | "cfg" => let (c, o) := configStep st.cfgSt op a; ({ st with cfgSt := c }, o)
     | "ex" => let (e, o) := execStep st.ex op a; ({ st with ex := e }, o)
     | "hw" => let (h, out) := hwmonStep st.hw op a; ({ st with hw := h }, out)
